@@ -70,7 +70,25 @@ pub fn drive_tostring(t: &mut Tracer, r: &mut Rng, n: usize) {
         let nn: i128 = if p == -2 { 60_000_000_000 } else { 10i128.pow((9 - p) as u32) };
         let mut args = json!({"prec": if p == -2 { -1 } else { p }, "su": if p == -2 { "minute" } else { "" }, "mode": mode});
         if r.chance(1, 10) { args.as_object_mut().unwrap().remove("mode"); }
-        match r.range(0, 3) {
+        match r.range(0, 4) {
+            4 => {
+                // a duration whose time total sits on / next to a tie of the precision; days and larger units ride along unrounded
+                if p == -2 { continue; }
+                let qmax = if r.chance(1, 2) { 200_000 } else { 9_000_000_000_000_000 / nn.max(1_000_000) };
+                let q = r.range128(0, qmax);
+                let total = q * nn + tie_biased_rem(r, nn);
+                let neg = r.chance(1, 2);
+                // spread the total over hours/minutes/seconds/sub-seconds in a random (unbalanced) way
+                let mut rest = total;
+                let h = if r.chance(1, 2) { let x = rest / 3_600_000_000_000; let x = if x > 0 { r.range128(0, x) } else { 0 }; rest -= x * 3_600_000_000_000; x } else { 0 };
+                let mi = if r.chance(1, 2) { let x = rest / 60_000_000_000; let x = if x > 0 { r.range128(0, x) } else { 0 }; rest -= x * 60_000_000_000; x } else { 0 };
+                let sec = rest / 1_000_000_000; rest %= 1_000_000_000;
+                let (ms, us, ns) = (rest / 1_000_000, rest / 1000 % 1000, rest % 1000);
+                let sg = |x: i128| big(if neg { -x } else { x });
+                let date = if r.chance(1, 3) { (r.range(0, 3) as i128, r.range(0, 14) as i128, r.range(0, 5) as i128, r.range(0, 40) as i128) } else { (0, 0, 0, 0) };
+                args["v"] = json!({"y": sg(date.0), "mo": sg(date.1), "w": sg(date.2), "d": sg(date.3), "h": sg(h), "mi": sg(mi), "s": sg(sec), "ms": sg(ms), "us": sg(us), "ns": sg(ns)});
+                t.call("Fmt.Duration", args);
+            }
             0 => {
                 let q = r.range128(0, DAY_NS / nn - 1);
                 let x = (q * nn + tie_biased_rem(r, nn)).min(DAY_NS - 1);
